@@ -2,7 +2,8 @@
 (* The configuration grid of Build.tla for TLC, and its export as cases for `mos build`. *)
 EXTENDS Build, Json, IOUtils, SequencesExt
 MCCfgs == [entry : {"main.asm", "src/start.asm"}, tdir : {"target", "out/bin"}, listing : BOOLEAN, symbols : BOOLEAN,
-           fmt : {"none", "prg", "bin"}, ofn : {"", "image.dat"}, banks : {0, 1, 2}, imports : BOOLEAN]
+           fmt : {"none", "prg", "bin"}, ofn : {"", "image.dat"}, banks : {0, 1, 2}, imports : BOOLEAN,
+           cwd : {"root", "sub"}, style : {"Short", "Medium", "Rich"}]
 Faults == {"none", "config", "parse", "codegen", "importparse"}
 Cases == {[cfg |-> c, fault |-> f, outcome |-> Outcome(c, f), dir |-> DirExpected(c, f),
            bank |-> SetToSeq(BankFiles(c)), lst |-> SetToSeq(ListingFiles(c)), sym |-> SetToSeq(SymbolFiles(c)), all |-> SetToSeq(Names)]
